@@ -27,7 +27,33 @@ void c19_quoted(pbt::Source& src) {
     alphabet += "\"\\,";
     size_t k = (size_t)src.range(0, 6);
     std::vector<std::string> v;
-    for (size_t i = 0; i < k; ++i) v.push_back(gen_over(src, alphabet, src.chance(16) ? 30 : 5));
+    if (long_mode()) {
+        // scale classes: few long fields (13..5000 bytes) / hundreds to thousands (rarely > 65536) of short fields with
+        // now and then a long one; lengths and letters expanded from a drawn seed
+        int cls = (int)src.weighted({4, 3, 3, 3, 1});
+        if (cls == 0) {
+            for (size_t i = 0; i < k; ++i) v.push_back(src.chance(160) ? gen_long(src, alphabet) : gen_over(src, alphabet, 5));
+        } else {
+            k = cls == 1 ? 255 + (size_t)src.range(0, 2) : cls == 2 ? (size_t)src.range(7, 300) : cls == 3 ? (size_t)src.range(300, 4000)
+                                                                                                          : 65535 + (size_t)src.range(0, 300);
+            size_t maxfield = (size_t)src.range(0, 6);
+            unsigned long_rate = cls == 4 ? 0 : 16u << src.range(0, 6);
+            Rng rng(src.bits(4));
+            v.resize(k);
+            for (std::string& f : v) {
+                size_t n = long_rate && rng.one_in(long_rate) ? 250 + rng.below(300) : rng.below(maxfield + 1);
+                for (size_t i = 0; i < n; ++i) f += alphabet[rng.below(alphabet.size())];
+            }
+        }
+        size_t longest = 0, total = 0;
+        for (const std::string& f : v) longest = std::max(longest, f.size()), total += f.size();
+        pbt::label(k <= 6 ? "quoted:<=6-fields" : k < 255 ? "quoted:7..254-fields" : k <= 257 ? "quoted:255..257-fields"
+                   : k < 65535 ? "quoted:258..4000-fields" : "quoted:>=65535-fields");
+        if (longest >= 255) pbt::label("quoted:field>=255-bytes");
+        label_len(total + (k ? k - 1 : 0));
+        PBT_LOG("  [" << k << " fields, longest " << longest << " bytes]\n");
+    } else
+        for (size_t i = 0; i < k; ++i) v.push_back(gen_over(src, alphabet, src.chance(16) ? 30 : 5));
 
     bool has_empty = false, quote_leading = false, needs_quotes = false, has_escapable = false, plain_special = false;
     for (const std::string& s : v) {
